@@ -71,6 +71,9 @@ func commonTags(c *Case, ref *refpeg.Result) []string {
 	if ref.Stats.PredEvals > 0 {
 		tags = append(tags, "predicate")
 	}
+	if ref.Stats.LRGrowth > 0 {
+		tags = append(tags, "left_recursion_growth")
+	}
 	if ref.Stats.MultiByte {
 		tags = append(tags, "multibyte")
 	}
@@ -97,6 +100,9 @@ func knownExclusion(x *X, ref *refpeg.Result, strict bool) string {
 	}
 	if ref.Stats.FFFDAtEOF > 0 && x.KF["KF-C17-FFFD-EOF"] {
 		return "KF-C17-FFFD-EOF"
+	}
+	if x.G.Spec.NonLeaderEntry() && x.KF["KF-C08-NONLEADER"] {
+		return "KF-C08-NONLEADER"
 	}
 	return ""
 }
